@@ -11,7 +11,18 @@ from contract.rs on every run), so a changed constant breaks the proofs below. T
 and the comparison directions are tied to the code by boundary-exact correspondence cases.
 
 Histories: `run c ops` folds the transactional step (`step'`: a failed message leaves the state unchanged)
-over an arbitrary list of operations by arbitrary senders at arbitrary (not even monotone) block times.
+over an arbitrary list of operations by arbitrary senders at arbitrary (not even monotone) block times. Operations are
+the messages of the running contract (the same `Sg721Contract` functions serve sg721-base, -nt, -updatable and
+-metadata-onchain; that each contract's own dispatch reaches them unchanged is VALIDATED by the harness per kind, not
+proved) **and contract migrations** (`Action.migrate`). `Action.setver` is not a message: it is how the harness
+fabricates an instance whose stored cw2 version is older than 3.1.0; theorems about real histories carry `NoSetver`.
+
+Round 3: honest names.
+* `C10_payout_refuses` is the FULL clause "refuses when fees plus royalty exceed the payment" since the repair /repo 00871d3
+  (before it, the helper answered `Ok(0)` for absent royalties / a zero share whatever the fees).
+* `C10_cadence_from_partial` + `C10_cadence_upgrade_counterexample`: "at most once per 24 hours" is FALSE across an
+  upgrade of an instance whose stored version is below 3.1.0 (`v3_1_0::upgrade` rewinds the anchor); it is proved in
+  full (`C10_cadence`, `C10_changes_24h_apart`) for every collection instantiated by the current code, migrations included.
 -/
 namespace LP
 open LP.Royalty
@@ -25,53 +36,57 @@ theorem C10_const_day : DAY_NS = 86400 * 10^9 := by decide
 
 /-! ## Anatomy of one step -/
 
-/-- Every successful message either leaves `(royalty_info, royalty_updated_at)` untouched, or is an
-`UpdateCollectionInfo` with `royalty_info: Some(Some r)` that passed the cadence, address, 100 % and raise guards
-and stored exactly `r` and the current block time. -/
+/-- is this op a migration the chain accepted and that runs `upgrades::v3_1_0` (anchor := now − 24 h) in state `c`? -/
+def rewinding (c : Coll) (op : Op) : Bool :=
+  match op.act with
+  | .migrate t ok => ok && rewinds c t
+  | _ => false
+
+def isSetver (op : Op) : Bool :=
+  match op.act with
+  | .setver _ => true
+  | _ => false
+
+/-- a history of real operations (messages and migrations), without the harness's version fabrication -/
+def NoSetver (ops : List Op) : Prop := ∀ op ∈ ops, isSetver op = false
+
+/-- Every successful operation either leaves `(royalty_info, royalty_updated_at)` untouched, or is an
+`UpdateCollectionInfo` with `royalty_info: Some(Some r)` sent by the creator of an unfrozen collection that passed the
+cadence, address, 100 % and raise guards and stored exactly `r` and the current block time, or is an accepted migration
+to sg721-updatable from a stored version below 3.1.0, which keeps the royalty and sets the anchor to `now − 24 h`. -/
 theorem C10_step_anatomy (c : Coll) (op : Op) (c' : Coll) (h : step c op = .ok c') :
     (c'.royalty = c.royalty ∧ c'.updatedAt = c.updatedAt) ∨
     (∃ m r, op.act = .update m ∧ m.royalty = .set r ∧ c.updatedAt + 86400 * 10^9 ≤ op.now ∧
         addrValid r.addr = true ∧ r.share ≤ 10^18 ∧ raiseOk c.royalty r.share = true ∧
-        c'.royalty = some ⟨r.addr, r.share⟩ ∧ c'.updatedAt = op.now) := by
-  unfold step at h
-  cases hact : op.act with
-  | update m =>
-    rw [hact] at h
-    simp only at h
-    rw [update_ok_iff] at h
-    obtain ⟨_, h2⟩ := h
+        c'.royalty = some ⟨r.addr, r.share⟩ ∧ c'.updatedAt = op.now ∧ c.creator = op.sender ∧ c.frozen = false) ∨
+    (rewinding c op = true ∧ c'.royalty = c.royalty ∧ c'.updatedAt = op.now - 86400 * 10^9) := by
+  rcases step_shape c op c' h with ⟨m, hact, hu⟩ | ⟨_, _, he⟩ | ⟨t, _, he⟩ | ⟨_, he⟩ | ⟨t, hact, hm⟩ | ⟨v, _, he⟩
+  · rw [update_ok_iff] at hu
+    obtain ⟨hf, h2⟩ := hu
     cases hm : m.royalty with
     | set r =>
       rw [hm] at h2
       simp only at h2
       rw [applyRoyalty_ok_iff] at h2
       obtain ⟨ht, ha, hs, hr, he⟩ := h2
-      right
-      refine ⟨m, r, rfl, hm, ?_, ha, ?_, hr, ?_, ?_⟩
+      right; left
+      refine ⟨m, r, hact, hm, ?_, ha, ?_, hr, ?_, ?_, hf.2.1, hf.1⟩
       · rw [← C10_const_day]; exact ht
       · rw [← C10_const_one]; exact hs
       · rw [he]
       · rw [he]
     | keep => rw [hm] at h2; simp only at h2; left; rw [h2]; exact ⟨rfl, rfl⟩
     | clear => rw [hm] at h2; simp only at h2; left; rw [h2]; exact ⟨rfl, rfl⟩
-  | freeze =>
-    rw [hact] at h
-    simp only at h
-    split at h
-    · cases h
-    · cases h; left; exact ⟨rfl, rfl⟩
-  | startTrading t ok =>
-    rw [hact] at h
-    simp only at h
-    split at h
-    · cases h; left; exact ⟨rfl, rfl⟩
-    · cases h
-  | other ok =>
-    rw [hact] at h
-    simp only at h
-    split at h
-    · cases h; left; exact ⟨rfl, rfl⟩
-    · cases h
+  · left; rw [he]; exact ⟨rfl, rfl⟩
+  · left; rw [he]; exact ⟨rfl, rfl⟩
+  · left; rw [he]; exact ⟨rfl, rfl⟩
+  · obtain ⟨hroy, _, _, _, _, _, hupd, _⟩ := migrate_ok c op.now t c' hm
+    by_cases hr : rewinds c t = true
+    · right; right
+      refine ⟨by unfold rewinding; rw [hact]; simpa using hr, hroy, ?_⟩
+      rw [hupd, ← C10_const_day]; simp [hr]
+    · left; rw [hupd]; simp [hr, hroy]
+  · left; rw [he]; exact ⟨rfl, rfl⟩
 
 theorem step'_eq (c : Coll) (op : Op) : (∃ c', step c op = .ok c' ∧ step' c op = c') ∨ ((∃ e, step c op = .error e) ∧ step' c op = c) := by
   unfold step'
@@ -94,18 +109,40 @@ theorem accepted_iff (c : Coll) (op : Op) :
   | freeze => simp
   | startTrading t ok => simp
   | other ok => simp
+  | migrate t ok => simp
+  | setver v => simp
 
-/-- **Frame.** A message that is not an accepted royalty update — a rejected one, an `UpdateCollectionInfo` without
-royalties, a freeze, `UpdateStartTradingTime`, any cw721 / ownership message — changes neither the royalty nor the anchor. -/
-theorem C10_frame (c : Coll) (op : Op) (h : acceptedRoyaltyUpdate c op = false) :
-    (step' c op).royalty = c.royalty ∧ (step' c op).updatedAt = c.updatedAt := by
+theorem rewinding_not_update (c : Coll) (op : Op) (m : UpdMsg) (hact : op.act = .update m) : rewinding c op = false := by
+  unfold rewinding; rw [hact]
+
+/-- **Frame (royalty).** An operation that is not an accepted royalty update — a rejected one, an `UpdateCollectionInfo`
+without royalties, a freeze, `UpdateStartTradingTime`, any cw721 / ownership / token-metadata message, ANY migration —
+does not change the royalty. (For the witnessed arms `.other`, `.startTrading`, `.migrate` this restates the model; that the
+real contracts behave so is validated by the harness: ghost-state monitor `royalty-changed-outside-update`.) -/
+theorem C10_frame_royalty (c : Coll) (op : Op) (h : acceptedRoyaltyUpdate c op = false) :
+    (step' c op).royalty = c.royalty := by
   rcases step'_eq c op with ⟨c', hs, he⟩ | ⟨_, he⟩
   · rw [he]
-    rcases C10_step_anatomy c op c' hs with hu | ⟨m, r, hact, hm, _⟩
-    · exact hu
+    rcases C10_step_anatomy c op c' hs with hu | ⟨m, r, hact, hm, _⟩ | ⟨_, hu, _⟩
+    · exact hu.1
     · have : acceptedRoyaltyUpdate c op = true := (accepted_iff c op).2 ⟨m, r, c', hact, hm, hs⟩
       rw [this] at h; cases h
-  · rw [he]; exact ⟨rfl, rfl⟩
+    · exact hu
+  · rw [he]
+
+/-- **Frame.** … and unless it is a rewinding migration (stored version < 3.1.0 → sg721-updatable) it does not move the
+cadence anchor either. -/
+theorem C10_frame (c : Coll) (op : Op) (h : acceptedRoyaltyUpdate c op = false) (hr : rewinding c op = false) :
+    (step' c op).royalty = c.royalty ∧ (step' c op).updatedAt = c.updatedAt := by
+  refine ⟨C10_frame_royalty c op h, ?_⟩
+  rcases step'_eq c op with ⟨c', hs, he⟩ | ⟨_, he⟩
+  · rw [he]
+    rcases C10_step_anatomy c op c' hs with hu | ⟨m, r, hact, hm, _⟩ | ⟨hrw, _, _⟩
+    · exact hu.2
+    · have : acceptedRoyaltyUpdate c op = true := (accepted_iff c op).2 ⟨m, r, c', hact, hm, hs⟩
+      rw [this] at h; cases h
+    · rw [hrw] at hr; cases hr
+  · rw [he]
 
 /-- An accepted royalty update happens at least 24 h after the anchor and moves the anchor to the current block time. -/
 theorem C10_accepted_spacing (c : Coll) (op : Op) (h : acceptedRoyaltyUpdate c op = true) :
@@ -113,8 +150,7 @@ theorem C10_accepted_spacing (c : Coll) (op : Op) (h : acceptedRoyaltyUpdate c o
   obtain ⟨m, r, c', hact, hm, hs⟩ := (accepted_iff c op).1 h
   have he : step' c op = c' := by unfold step'; rw [hs]
   rw [he]
-  rcases C10_step_anatomy c op c' hs with ⟨_, _⟩ | ⟨m', r', hact', hm', ht, _, _, _, _, hu⟩
-  · -- impossible: the update carried `set r`, so the anatomy is the second case; derive it directly
+  have direct : c.updatedAt + 86400 * 10^9 ≤ op.now ∧ c'.updatedAt = op.now := by
     unfold step at hs
     rw [hact] at hs
     simp only at hs
@@ -126,13 +162,13 @@ theorem C10_accepted_spacing (c : Coll) (op : Op) (h : acceptedRoyaltyUpdate c o
     obtain ⟨ht, _, _, _, he'⟩ := h2
     refine ⟨?_, by rw [he']⟩
     rw [← C10_const_day]; exact ht
-  · exact ⟨ht, hu⟩
+  exact direct
 
 /-! ## Clause 1 — "A collection's royalty share is never above 100%, at creation or after any update." -/
 
 def ShareOk (c : Coll) : Prop := ∀ r, c.royalty = some r → r.share ≤ 10^18
 
-/-- at creation -/
+/-- at creation (any of the four contracts) -/
 theorem C10_inst_share_le_one (now : Nat) (m : InstMsg) (c : Coll) (h : instantiate now m = .ok c) : ShareOk c := by
   rw [instantiate_ok_iff] at h
   obtain ⟨_, _, _, _, _, _, hr, _, he⟩ := h
@@ -151,13 +187,14 @@ theorem C10_inst_above_one_rejected (now : Nat) (m : InstMsg) (r : RoyaltyInfo) 
   rw [C10_const_one] at this
   omega
 
-/-- one step preserves the bound -/
+/-- one step (message, migration, even the harness's version fabrication) preserves the bound -/
 theorem C10_step_share_le_one (c : Coll) (op : Op) (h : ShareOk c) : ShareOk (step' c op) := by
   rcases step'_eq c op with ⟨c', hs, he⟩ | ⟨_, he⟩
   · rw [he]
-    rcases C10_step_anatomy c op c' hs with ⟨hu, _⟩ | ⟨m, r, _, _, _, _, hle, _, hroy, _⟩
+    rcases C10_step_anatomy c op c' hs with ⟨hu, _⟩ | ⟨m, r, _, _, _, _, hle, _, hroy, _⟩ | ⟨_, hu, _⟩
     · intro r hr; rw [hu] at hr; exact h r hr
     · intro r' hr'; rw [hroy] at hr'; cases hr'; exact hle
+    · intro r hr; rw [hu] at hr; exact h r hr
   · rw [he]; exact h
 
 theorem run_cons (c : Coll) (op : Op) (ops : List Op) : run c (op :: ops) = run (step' c op) ops := rfl
@@ -168,8 +205,9 @@ theorem C10_run_share_le_one (c : Coll) (ops : List Op) (h : ShareOk c) : ShareO
   | nil => exact h
   | cons op ops ih => rw [run_cons]; exact ih _ (C10_step_share_le_one c op h)
 
-/-- **Clause 1, all histories**: for every instantiate message, every block time and every finite sequence of
-messages (any senders, any arguments, any times), the stored share is at most `10^18` atomics = 100 %. -/
+/-- **Clause 1, all histories**: for every instantiate message of any of the four contracts, every block time and every
+finite sequence of messages and migrations (any senders, any arguments, any times), the stored share is at most `10^18`
+atomics = 100 %. -/
 theorem C10_share_le_one (now : Nat) (m : InstMsg) (c : Coll) (ops : List Op) (h : instantiate now m = .ok c) :
     ∀ r, (run c ops).royalty = some r → r.share ≤ 10^18 :=
   C10_run_share_le_one c ops (C10_inst_share_le_one now m c h)
@@ -189,21 +227,23 @@ theorem C10_update_above_one_rejected (c : Coll) (now : Nat) (sender : Addr) (m 
 theorem C10_raise_bounded (c : Coll) (op : Op) (c' : Coll) (o n : RoyaltyInfo)
     (h : step c op = .ok c') (ho : c.royalty = some o) (hn : c'.royalty = some n) (hlt : o.share < n.share) :
     n.share - o.share ≤ 2 * 10^16 ∧ n.share ≤ 10^17 := by
-  rcases C10_step_anatomy c op c' h with ⟨hu, _⟩ | ⟨m, r, _, _, _, _, _, hr, hroy, _⟩
+  rcases C10_step_anatomy c op c' h with ⟨hu, _⟩ | ⟨m, r, _, _, _, _, _, hr, hroy, _⟩ | ⟨_, hu, _⟩
   · rw [hu, ho] at hn; cases hn; omega
   · rw [hroy] at hn; cases hn
     have := (raiseOk_iff c.royalty r.share).1 hr o ho hlt
     rw [C10_const_delta, C10_const_max] at this
     exact this
+  · rw [hu, ho] at hn; cases hn; omega
 
-/-- royalties, once present, are never removed (`royalty_info: null` is a no-op) -/
+/-- royalties, once present, are never removed (`royalty_info: null` is a no-op; migrations keep them) -/
 theorem C10_royalty_stays (c : Coll) (op : Op) (o : RoyaltyInfo) (ho : c.royalty = some o) :
     ∃ n, (step' c op).royalty = some n := by
   rcases step'_eq c op with ⟨c', hs, he⟩ | ⟨_, he⟩
   · rw [he]
-    rcases C10_step_anatomy c op c' hs with ⟨hu, _⟩ | ⟨m, r, _, _, _, _, _, _, hroy, _⟩
+    rcases C10_step_anatomy c op c' hs with ⟨hu, _⟩ | ⟨m, r, _, _, _, _, _, _, hroy, _⟩ | ⟨_, hu, _⟩
     · exact ⟨o, by rw [hu, ho]⟩
     · exact ⟨_, hroy⟩
+    · exact ⟨o, by rw [hu, ho]⟩
   · rw [he]; exact ⟨o, ho⟩
 
 /-! ## Clause 3 — "any royalty change is accepted at most once per 24 hours" -/
@@ -218,48 +258,168 @@ theorem C10_too_soon_rejected (c : Coll) (now : Nat) (sender : Addr) (m : UpdMsg
   have : (applyFields c m).updatedAt = c.updatedAt := rfl
   omega
 
-/-- whenever a successful message changes the royalty (or the anchor), it is a royalty update at least 24 h after the anchor -/
+/-- whenever a successful operation changes the royalty, it is a royalty update sent by the creator of an unfrozen
+collection at least 24 h after the anchor; the anchor moves only then, or by a rewinding migration -/
 theorem C10_change_needs_cadence (c : Coll) (op : Op) (c' : Coll) (h : step c op = .ok c')
-    (hch : c'.royalty ≠ c.royalty ∨ c'.updatedAt ≠ c.updatedAt) :
+    (hch : c'.royalty ≠ c.royalty ∨ (c'.updatedAt ≠ c.updatedAt ∧ rewinding c op = false)) :
     c.updatedAt + 86400 * 10^9 ≤ op.now ∧ c'.updatedAt = op.now ∧ acceptedRoyaltyUpdate c op = true := by
-  rcases C10_step_anatomy c op c' h with ⟨hu, hu2⟩ | ⟨m, r, hact, hm, ht, _, _, _, _, hup⟩
-  · rcases hch with h1 | h1
+  rcases C10_step_anatomy c op c' h with ⟨hu, hu2⟩ | ⟨m, r, hact, hm, ht, _, _, _, _, hup, _⟩ | ⟨hrw, hu, _⟩
+  · rcases hch with h1 | ⟨h1, _⟩
     · exact absurd hu h1
     · exact absurd hu2 h1
   · exact ⟨ht, hup, (accepted_iff c op).2 ⟨m, r, c', hact, hm, h⟩⟩
+  · rcases hch with h1 | ⟨_, h1⟩
+    · exact absurd hu h1
+    · rw [hrw] at h1; cases h1
+
+/-- **who can change royalties** (frame, strengthened): a successful operation that changes the royalty was sent by the
+current creator, and the collection info was not frozen -/
+theorem C10_change_by_creator (c : Coll) (op : Op) (c' : Coll) (h : step c op = .ok c') (hch : c'.royalty ≠ c.royalty) :
+    op.sender = c.creator ∧ c.frozen = false := by
+  rcases C10_step_anatomy c op c' h with ⟨hu, _⟩ | ⟨m, r, _, _, _, _, _, _, _, _, hc, hf⟩ | ⟨_, hu, _⟩
+  · exact absurd hu hch
+  · exact ⟨hc.symm, hf⟩
+  · exact absurd hu hch
+
+/-- migrations (and the harness's version fabrication) never change `royalty_info` — neither share nor address -/
+theorem C10_migrate_keeps_royalty (c : Coll) (op : Op) (t : Kind) (ok : Bool) (hact : op.act = .migrate t ok) :
+    (step' c op).royalty = c.royalty := by
+  apply C10_frame_royalty
+  unfold acceptedRoyaltyUpdate; rw [hact]
+
+/-- a migration moves the cadence anchor only when it rewinds, and then to exactly `now − 24 h`: an update is possible
+immediately after it, the next one again 24 h later -/
+theorem C10_migrate_anchor (c : Coll) (op : Op) (t : Kind) (ok : Bool) (hact : op.act = .migrate t ok) :
+    (step' c op).updatedAt = if rewinding c op then op.now - 86400 * 10^9 else c.updatedAt := by
+  have hrw : rewinding c op = (ok && rewinds c t) := by unfold rewinding; rw [hact]
+  rcases step'_eq c op with ⟨c', hs, he⟩ | ⟨⟨e, hs⟩, he⟩
+  · rw [he]
+    unfold step at hs; rw [hact] at hs; simp only at hs
+    split at hs
+    · rename_i hok
+      rw [(migrate_ok c op.now t c' hs).2.2.2.2.2.2.1, hrw, hok, ← C10_const_day]; simp
+    · cases hs
+  · rw [he]
+    -- a failed migration: either not accepted by the chain, or refused by the model's name check; neither rewinds
+    have : rewinding c op = false := by
+      rw [hrw]
+      cases ok with
+      | false => rfl
+      | true =>
+        unfold step at hs; rw [hact] at hs; simp only [if_true] at hs
+        cases hr : rewinds c t with
+        | false => rfl
+        | true =>
+          obtain ⟨ht, hn, _⟩ := (rewinds_iff c t).1 hr
+          subst ht
+          unfold migrate at hs
+          simp [hn] at hs
+    rw [this]; simp
+
+/-! ### No rewinding for collections created by the current code -/
+
+/-- the stored version of an instance whose stored NAME `sg721-updatable::_migrate` would accept is not below 3.1.0 -/
+def VerInv (c : Coll) : Prop := (c.name = .base ∨ c.name = .updatable) → verLt c.ver V310 = false
+
+/-- every crate of the workspace is at 3.1.0 or later (regenerated constants: a version below would break this proof) -/
+theorem C10_const_versions (k : Kind) : verLt (curVer k) V310 = false := by cases k <;> decide
+
+theorem C10_inst_verinv (now : Nat) (m : InstMsg) (c : Coll) (h : instantiate now m = .ok c) : VerInv c := by
+  rw [instantiate_ok_iff] at h
+  rw [h.2.2.2.2.2.2.2.2]
+  intro _
+  exact C10_const_versions m.kind
+
+theorem not_rewinding_of_verinv (c : Coll) (op : Op) (h : VerInv c) : rewinding c op = false := by
+  cases hr : rewinding c op with
+  | false => rfl
+  | true =>
+    unfold rewinding at hr
+    cases hact : op.act with
+    | migrate t ok =>
+      rw [hact] at hr; simp at hr
+      obtain ⟨_, hk, hv⟩ := (rewinds_iff c t).1 hr.2
+      rw [h hk] at hv; cases hv
+    | update m => rw [hact] at hr; cases hr
+    | freeze => rw [hact] at hr; cases hr
+    | startTrading t ok => rw [hact] at hr; cases hr
+    | other ok => rw [hact] at hr; cases hr
+    | setver v => rw [hact] at hr; cases hr
+
+theorem C10_step_verinv (c : Coll) (op : Op) (h : VerInv c) (hns : isSetver op = false) : VerInv (step' c op) := by
+  rcases step'_eq c op with ⟨c', hs, he⟩ | ⟨_, he⟩
+  · rw [he]
+    rcases step_shape c op c' hs with ⟨m, _, hu⟩ | ⟨_, _, he'⟩ | ⟨t, _, he'⟩ | ⟨_, he'⟩ | ⟨t, _, hm⟩ | ⟨v, ha, _⟩
+    · obtain ⟨hk, hv, _⟩ := update_untouched c op.now op.sender m c' hu
+      intro hk'; rw [hv]; rw [hk] at hk'; exact h hk'
+    · rw [he']; exact h
+    · rw [he']; exact h
+    · rw [he']; exact h
+    · rcases (migrate_ok c op.now t c' hm).2.2.2.2.2.2.2 with ⟨_, _, hv⟩ | ⟨_, ⟨hn, hv⟩ | hn⟩
+      · intro _; rw [hv]; exact C10_const_versions .updatable
+      · intro hk'; rw [hv]; rw [hn] at hk'; exact h hk'
+      · intro hk'; rw [hn] at hk'; rcases hk' with h1 | h1 <;> cases h1
+    · unfold isSetver at hns; rw [ha] at hns; cases hns
+  · rw [he]; exact h
+
+/-- **No rewinding, all real histories**: a collection instantiated by the current code of any of the four contracts
+keeps a stored version ≥ 3.1.0 through every history of messages and migrations, so no migration ever rewinds its anchor. -/
+theorem C10_no_rewind_reachable (t0 : Nat) (im : InstMsg) (c0 : Coll) (ops : List Op) (h0 : instantiate t0 im = .ok c0)
+    (hns : NoSetver ops) : VerInv (run c0 ops) ∧ ∀ op, rewinding (run c0 ops) op = false := by
+  have key : ∀ (ops : List Op) (c : Coll), VerInv c → NoSetver ops → VerInv (run c ops) := by
+    intro ops
+    induction ops with
+    | nil => intro c h _; exact h
+    | cons op ops ih =>
+      intro c h hns
+      rw [run_cons]
+      exact ih _ (C10_step_verinv c op h (hns op (List.mem_cons_self ..))) (fun o ho => hns o (List.mem_cons_of_mem _ ho))
+  have hv := key ops c0 (C10_inst_verinv t0 im c0 h0) hns
+  exact ⟨hv, fun op => not_rewinding_of_verinv _ op hv⟩
 
 /-- consecutive accepted times are at least 24 h apart, the first one at least 24 h after `anchor` -/
 def Spaced : Nat → List Nat → Prop
   | _, [] => True
   | anchor, t :: ts => anchor + 86400 * 10^9 ≤ t ∧ Spaced t ts
 
-/-- **Clause 3, all histories**: in every history the block times of the accepted royalty updates are spaced by
-at least 24 h, starting 24 h after the anchor of the initial state. -/
-theorem C10_cadence_from (c : Coll) (ops : List Op) : Spaced c.updatedAt (acceptedTimes c ops) := by
+/- FULL statement (false, see `C10_cadence_upgrade_counterexample`):
+     ∀ (c : Coll) (ops : List Op), NoSetver ops → Spaced c.updatedAt (acceptedTimes c ops)
+   i.e. for EVERY collection state — including instances created by code older than 3.1.0 — and every history of messages
+   and migrations the accepted royalty updates are 24 h apart. Proved below for states with `VerInv` (stored version of a
+   base/updatable instance ≥ 3.1.0), which covers every collection instantiated by the current code (`C10_cadence`). -/
+/-- **Clause 3, histories from a state whose stored version is not below 3.1.0**: the block times of the accepted
+royalty updates are spaced by at least 24 h, starting 24 h after the anchor of the initial state — migrations included. -/
+theorem C10_cadence_from_partial (c : Coll) (ops : List Op) (hv : VerInv c) (hns : NoSetver ops) :
+    Spaced c.updatedAt (acceptedTimes c ops) := by
   induction ops generalizing c with
   | nil => exact trivial
   | cons op ops ih =>
+    have hv' := C10_step_verinv c op hv (hns op (List.mem_cons_self ..))
+    have hns' : NoSetver ops := fun o ho => hns o (List.mem_cons_of_mem _ ho)
     unfold acceptedTimes
     by_cases ha : acceptedRoyaltyUpdate c op = true
     · rw [if_pos ha]
       obtain ⟨ht, hu⟩ := C10_accepted_spacing c op ha
       refine ⟨ht, ?_⟩
-      have := ih (step' c op)
+      have := ih (step' c op) hv' hns'
       rw [hu] at this
       exact this
     · rw [if_neg ha]
-      have hf := (C10_frame c op (by simpa using ha)).2
-      have := ih (step' c op)
+      have hf := (C10_frame c op (by simpa using ha) (not_rewinding_of_verinv c op hv)).2
+      have := ih (step' c op) hv' hns'
       rw [hf] at this
       exact this
 
-/-- … for a collection created at block time `t0`: the first accepted royalty change is at least 24 h after creation -/
-theorem C10_cadence (t0 : Nat) (m : InstMsg) (c : Coll) (ops : List Op) (h : instantiate t0 m = .ok c) :
+/-- **Clause 3, all real histories** of a collection created at block time `t0` by the current code of any of the four
+contracts — messages AND migrations: the first accepted royalty change is at least 24 h after creation, each further one
+at least 24 h after the previous one. -/
+theorem C10_cadence (t0 : Nat) (m : InstMsg) (c : Coll) (ops : List Op) (h : instantiate t0 m = .ok c) (hns : NoSetver ops) :
     Spaced t0 (acceptedTimes c ops) := by
   have hu : c.updatedAt = t0 := by
-    rw [instantiate_ok_iff] at h
-    rw [h.2.2.2.2.2.2.2.2]
-  have := C10_cadence_from c ops
+    have h' := h
+    rw [instantiate_ok_iff] at h'
+    rw [h'.2.2.2.2.2.2.2.2]
+  have := C10_cadence_from_partial c ops (C10_inst_verinv t0 m c h) hns
   rw [hu] at this
   exact this
 
@@ -289,7 +449,7 @@ theorem C10_no_silent_change (c : Coll) (op : Op) (h : (step' c op).royalty ≠ 
     acceptedRoyaltyUpdate c op = true := by
   cases ha : acceptedRoyaltyUpdate c op with
   | true => rfl
-  | false => exact absurd (C10_frame c op ha).1 h
+  | false => exact absurd (C10_frame_royalty c op ha) h
 
 /-- block times at which the stored royalty *observably changed* in a history -/
 def changeTimes : Coll → List Op → List Nat
@@ -311,11 +471,13 @@ theorem changeTimes_sublist (c : Coll) (ops : List Op) : (changeTimes c ops).Sub
       · rw [if_pos ha]; exact List.Sublist.cons _ (ih _)
       · rw [if_neg ha]; exact ih _
 
-/-- **Clause 3 in one sentence**: for a collection created at `t0`, over every history, the creation time and the times
-at which the royalty observably changed are pairwise at least 24 h apart (in order). -/
-theorem C10_changes_24h_apart (t0 : Nat) (m : InstMsg) (c : Coll) (ops : List Op) (h : instantiate t0 m = .ok c) :
+/-- **Clause 3 in one sentence**: for a collection created at `t0` by the current code, over every real history (messages
+and migrations), the creation time and the times at which the royalty observably changed are pairwise at least 24 h
+apart (in order). -/
+theorem C10_changes_24h_apart (t0 : Nat) (m : InstMsg) (c : Coll) (ops : List Op) (h : instantiate t0 m = .ok c)
+    (hns : NoSetver ops) :
     (t0 :: changeTimes c ops).Pairwise (fun x y => x + 86400 * 10^9 ≤ y) := by
-  have hp := C10_spaced_pairwise t0 _ (C10_cadence t0 m c ops h)
+  have hp := C10_spaced_pairwise t0 _ (C10_cadence t0 m c ops h hns)
   exact hp.sublist (List.Sublist.cons_cons _ (changeTimes_sublist c ops))
 
 /-! ## Clause 4 — "lowering is always allowed within that cadence" -/
@@ -382,13 +544,9 @@ theorem C10_inst_wf (now : Nat) (m : InstMsg) (c : Coll) (h : instantiate now m 
 theorem C10_step_wf (c : Coll) (op : Op) (h : WF c) : WF (step' c op) := by
   rcases step'_eq c op with ⟨c', hs, he⟩ | ⟨_, he⟩
   · rw [he]
-    unfold step at hs
-    cases hact : op.act with
-    | update m =>
-      rw [hact] at hs
-      simp only at hs
-      rw [update_ok_iff] at hs
-      obtain ⟨⟨_, _, _, hd, hi, hl⟩, h2⟩ := hs
+    rcases step_shape c op c' hs with ⟨m, _, hu⟩ | ⟨_, _, he'⟩ | ⟨t, _, he'⟩ | ⟨_, he'⟩ | ⟨t, _, hm⟩ | ⟨v, _, he'⟩
+    · rw [update_ok_iff] at hu
+      obtain ⟨⟨_, _, _, hd, hi, hl⟩, h2⟩ := hu
       have hwf : WF (applyFields c m) := ⟨hd, hi, hl⟩
       cases hm : m.royalty with
       | set r =>
@@ -397,21 +555,12 @@ theorem C10_step_wf (c : Coll) (op : Op) (h : WF c) : WF (step' c op) := by
         rw [h2.2.2.2.2]; exact hwf
       | keep => rw [hm] at h2; simp only at h2; rw [h2]; exact hwf
       | clear => rw [hm] at h2; simp only at h2; rw [h2]; exact hwf
-    | freeze =>
-      rw [hact] at hs; simp only at hs
-      split at hs
-      · cases hs
-      · cases hs; exact h
-    | startTrading t ok =>
-      rw [hact] at hs; simp only at hs
-      split at hs
-      · cases hs; exact h
-      · cases hs
-    | other ok =>
-      rw [hact] at hs; simp only at hs
-      split at hs
-      · cases hs; exact h
-      · cases hs
+    · rw [he']; exact h
+    · rw [he']; exact h
+    · rw [he']; exact h
+    · obtain ⟨_, _, _, hd, hi, hl, _⟩ := migrate_ok c op.now t c' hm
+      unfold WF; rw [hd, hi, hl]; exact h
+    · rw [he']; exact h
   · rw [he]; exact h
 
 theorem C10_run_wf (c : Coll) (ops : List Op) (h : WF c) : WF (run c ops) := by
@@ -436,6 +585,36 @@ theorem C10_lower_allowed_reachable (t0 : Nat) (im : InstMsg) (c0 : Coll) (ops :
     refine ⟨hnf, rfl, ?_, hwf.1, hwf.2.1, hwf.2.2⟩
     intro n hn; cases hn
   exact C10_lower_allowed (run c0 ops) now _ _ ⟨a, s⟩ o hinv hf rfl ha ho hle ht
+
+/-! ## Freeze: once the collection info is frozen the royalty is final -/
+
+theorem C10_frozen_step (c : Coll) (op : Op) (h : c.frozen = true) :
+    (step' c op).frozen = true ∧ (step' c op).royalty = c.royalty := by
+  rcases step'_eq c op with ⟨c', hs, he⟩ | ⟨_, he⟩
+  · rw [he]
+    rcases step_shape c op c' hs with ⟨m, _, hu⟩ | ⟨_, _, he'⟩ | ⟨t, _, he'⟩ | ⟨_, he'⟩ | ⟨t, _, hm⟩ | ⟨v, _, he'⟩
+    · rw [update_ok_iff] at hu
+      have := hu.1.1
+      rw [h] at this; cases this
+    · rw [he']; exact ⟨rfl, rfl⟩
+    · rw [he']; exact ⟨h, rfl⟩
+    · rw [he']; exact ⟨h, rfl⟩
+    · obtain ⟨hr, hf, _⟩ := migrate_ok c op.now t c' hm
+      exact ⟨by rw [hf]; exact h, hr⟩
+    · rw [he']; exact ⟨h, rfl⟩
+  · rw [he]; exact ⟨h, rfl⟩
+
+/-- **History level**: after `FreezeCollectionInfo` no message and no migration ever changes the royalty again (and
+nothing unfreezes) -/
+theorem C10_frozen_royalty_final (c : Coll) (ops : List Op) (h : c.frozen = true) :
+    (run c ops).frozen = true ∧ (run c ops).royalty = c.royalty := by
+  induction ops generalizing c with
+  | nil => exact ⟨h, rfl⟩
+  | cons op ops ih =>
+    rw [run_cons]
+    obtain ⟨hf, hr⟩ := C10_frozen_step c op h
+    obtain ⟨h1, h2⟩ := ih (step' c op) hf
+    exact ⟨h1, by rw [h2, hr]⟩
 
 /-! ## "can only creep up slowly": multi-step climbs -/
 
@@ -504,15 +683,17 @@ theorem raises_le_accepted (c : Coll) (ops : List Op) : raises c ops ≤ (accept
       · rw [if_pos ha, List.length_cons]; omega
       · rw [if_neg ha]; omega
 
-/-- … and each accepted update pushes the anchor at least 24 h forward -/
-theorem anchor_advance (c : Coll) (ops : List Op) :
+/-- … and each accepted update pushes the anchor at least 24 h forward (no rewinding migration in between: `VerInv`) -/
+theorem anchor_advance (c : Coll) (ops : List Op) (hv : VerInv c) (hns : NoSetver ops) :
     c.updatedAt + 86400 * 10^9 * (acceptedTimes c ops).length ≤ (run c ops).updatedAt := by
   induction ops generalizing c with
   | nil => simp [acceptedTimes, run_nil]
   | cons op ops ih =>
+    have hv' := C10_step_verinv c op hv (hns op (List.mem_cons_self ..))
+    have hns' : NoSetver ops := fun o ho => hns o (List.mem_cons_of_mem _ ho)
     unfold acceptedTimes
     rw [run_cons]
-    have := ih (step' c op)
+    have := ih (step' c op) hv' hns'
     by_cases ha : acceptedRoyaltyUpdate c op = true
     · rw [if_pos ha]
       obtain ⟨ht, hu⟩ := C10_accepted_spacing c op ha
@@ -523,18 +704,22 @@ theorem anchor_advance (c : Coll) (ops : List Op) :
       generalize D * (acceptedTimes (step' c op) ops).length = X at *
       omega
     · rw [if_neg ha]
-      rw [(C10_frame c op (by simpa using ha)).2] at this
+      rw [(C10_frame c op (by simpa using ha) (not_rewinding_of_verinv c op hv)).2] at this
       exact this
 
-/-- **Creep rate, all histories**: the share can rise by at most 2 percentage points per full 24 h by which the
-cadence anchor (`royalty_updated_at`) has moved: `share ≤ s₀ + 2 % · ⌊(anchor_now − anchor_then) / 24 h⌋`. -/
-theorem C10_creep_rate (c : Coll) (ops : List Op) (o : RoyaltyInfo) (ho : c.royalty = some o) :
+/-- **Creep rate, histories from a state whose stored version is not below 3.1.0** (in particular every collection
+instantiated by the current code, `C10_creep_rate`): the share can rise by at most 2 percentage points per full 24 h by
+which the cadence anchor (`royalty_updated_at`) has moved: `share ≤ s₀ + 2 % · ⌊(anchor_now − anchor_then) / 24 h⌋`.
+(Without `VerInv` a rewinding migration moves the anchor backwards; `C10_climb` still bounds the share by the number of
+accepted raises and by 10 %.) -/
+theorem C10_creep_rate_from (c : Coll) (ops : List Op) (o : RoyaltyInfo) (ho : c.royalty = some o)
+    (hv : VerInv c) (hns : NoSetver ops) :
     ∃ n, (run c ops).royalty = some n ∧
       n.share ≤ o.share + 2 * 10^16 * (((run c ops).updatedAt - c.updatedAt) / (86400 * 10^9)) := by
   obtain ⟨n, hn, hb, _⟩ := C10_climb c ops o ho
   refine ⟨n, hn, ?_⟩
   have h1 := raises_le_accepted c ops
-  have h2 := anchor_advance c ops
+  have h2 := anchor_advance c ops hv hns
   have h3 : (acceptedTimes c ops).length ≤ ((run c ops).updatedAt - c.updatedAt) / (86400 * 10^9) := by
     rw [Nat.le_div_iff_mul_le (by decide)]
     rw [Nat.mul_comm]
@@ -543,37 +728,32 @@ theorem C10_creep_rate (c : Coll) (ops : List Op) (o : RoyaltyInfo) (ho : c.roya
     Nat.mul_le_mul_left _ (Nat.le_trans h1 h3)
   omega
 
-/-! ## Clause 5 — the payout helper -/
+/-- **Creep rate, all real histories** of a collection created with royalties by the current code (messages and migrations) -/
+theorem C10_creep_rate (t0 : Nat) (im : InstMsg) (c : Coll) (ops : List Op) (o : RoyaltyInfo)
+    (h0 : instantiate t0 im = .ok c) (ho : c.royalty = some o) (hns : NoSetver ops) :
+    ∃ n, (run c ops).royalty = some n ∧
+      n.share ≤ o.share + 2 * 10^16 * (((run c ops).updatedAt - t0) / (86400 * 10^9)) := by
+  have hu : c.updatedAt = t0 := by
+    have h' := h0
+    rw [instantiate_ok_iff] at h'
+    rw [h'.2.2.2.2.2.2.2.2]
+  have := C10_creep_rate_from c ops o ho (C10_inst_verinv t0 im c h0) hns
+  rw [hu] at this
+  exact this
 
-/-- "pays nothing for … absent royalties" -/
-theorem C10_payout_absent (payment fee : Nat) (finders : Option Nat) :
-    royaltyPayout none payment fee finders = .ok (0, []) := rfl
+/-! ## Clause 5 — the payout helper (as repaired in /repo 00871d3: the fees are checked first, royalty due or not) -/
 
-/-- "pays nothing for a zero share" -/
-theorem C10_payout_zero_share (a : Addr) (payment fee : Nat) (finders : Option Nat) :
-    royaltyPayout (some ⟨a, 0⟩) payment fee finders = .ok (0, []) := rfl
-
-/-- "pays floor(payment x share) to the royalty address" -/
-theorem C10_payout_pays_floor (r : RoyaltyInfo) (payment fee : Nat) (finders : Option Nat) (hnz : r.share ≠ 0)
-    (hfit : fee + finders.getD 0 + payment * r.share / 10^18 ≤ payment) :
-    royaltyPayout (some r) payment fee finders =
-      .ok (payment * r.share / 10^18, [Msg.send r.addr ⟨NATIVE, payment * r.share / 10^18⟩]) := by
-  unfold royaltyPayout mulFloor
-  simp only [hnz, if_false]
-  have : ¬ payment < fee + finders.getD 0 + payment * r.share / 10^18 := by omega
-  simp only [this, if_false]
-
-/-- "refuses when fees plus royalty exceed the payment" -/
-theorem C10_payout_refuses (r : RoyaltyInfo) (payment fee : Nat) (finders : Option Nat) (hnz : r.share ≠ 0)
-    (hex : payment < fee + finders.getD 0 + payment * r.share / 10^18) :
-    royaltyPayout (some r) payment fee finders = .error .other := by
-  unfold royaltyPayout mulFloor
-  simp only [hnz, if_false, hex, if_true]
+/-- the royalty the clause talks about: `floor(payment × share)`, nothing for absent royalties -/
+def royaltyOf (info : Option RoyaltyInfo) (payment : Nat) : Nat :=
+  match info with
+  | none => 0
+  | some r => payment * r.share / 10^18
 
 /-- complete case analysis of the helper -/
 theorem C10_payout_spec (info : Option RoyaltyInfo) (payment fee : Nat) (finders : Option Nat) :
     royaltyPayout info payment fee finders =
-      match info with
+      if payment < fee + finders.getD 0 then .error .other
+      else match info with
       | none => .ok (0, [])
       | some r =>
         if r.share = 0 then .ok (0, [])
@@ -582,21 +762,72 @@ theorem C10_payout_spec (info : Option RoyaltyInfo) (payment fee : Nat) (finders
   unfold royaltyPayout mulFloor
   cases info <;> rfl
 
-/-- whatever is sent is exactly what is returned; and when something is charged (non-zero share), royalty plus fees fit
-into the payment -/
-theorem C10_payout_conserves (r : RoyaltyInfo) (payment fee : Nat) (finders : Option Nat) (amt : Nat) (ms : List Msg)
-    (h : royaltyPayout (some r) payment fee finders = .ok (amt, ms)) :
-    sumAmounts ms = amt ∧ (r.share ≠ 0 → amt + fee + finders.getD 0 ≤ payment) := by
+/-- "pays nothing for … absent royalties" (when the fees fit into the payment; otherwise it refuses, `C10_payout_refuses`) -/
+theorem C10_payout_absent (payment fee : Nat) (finders : Option Nat) (hfit : fee + finders.getD 0 ≤ payment) :
+    royaltyPayout none payment fee finders = .ok (0, []) := by
+  rw [C10_payout_spec]
+  have : ¬ payment < fee + finders.getD 0 := by omega
+  simp only [this, if_false]
+
+/-- "pays nothing for a zero share" (when the fees fit into the payment) -/
+theorem C10_payout_zero_share (a : Addr) (payment fee : Nat) (finders : Option Nat) (hfit : fee + finders.getD 0 ≤ payment) :
+    royaltyPayout (some ⟨a, 0⟩) payment fee finders = .ok (0, []) := by
+  rw [C10_payout_spec]
+  have : ¬ payment < fee + finders.getD 0 := by omega
+  simp only [this, if_false, if_true]
+
+/-- "pays floor(payment x share) to the royalty address" -/
+theorem C10_payout_pays_floor (r : RoyaltyInfo) (payment fee : Nat) (finders : Option Nat) (hnz : r.share ≠ 0)
+    (hfit : fee + finders.getD 0 + payment * r.share / 10^18 ≤ payment) :
+    royaltyPayout (some r) payment fee finders =
+      .ok (payment * r.share / 10^18, [Msg.send r.addr ⟨NATIVE, payment * r.share / 10^18⟩]) := by
+  rw [C10_payout_spec]
+  have h1 : ¬ payment < fee + finders.getD 0 := by omega
+  have h2 : ¬ payment < fee + finders.getD 0 + payment * r.share / 10^18 := by omega
+  simp only [h1, h2, hnz, if_false]
+
+/-- **"refuses when fees plus royalty exceed the payment" — in full**: for every royalty configuration (absent, zero
+share, any share), every payment and every fees. (Before /repo 00871d3 this failed for absent royalties / a zero share:
+the helper answered `Ok(0)`; regression: the `example`s below and `corpus/C10/payout-fees-exceed-zero-royalty.json`.) -/
+theorem C10_payout_refuses (info : Option RoyaltyInfo) (payment fee : Nat) (finders : Option Nat)
+    (hex : payment < fee + finders.getD 0 + royaltyOf info payment) :
+    royaltyPayout info payment fee finders = .error .other := by
+  rw [C10_payout_spec]
+  by_cases h1 : payment < fee + finders.getD 0
+  · simp only [h1, if_true]
+  · simp only [h1, if_false]
+    cases info with
+    | none => simp only [royaltyOf] at hex; omega
+    | some r =>
+      simp only [royaltyOf] at hex
+      simp only
+      by_cases hz : r.share = 0
+      · rw [hz] at hex; simp at hex; omega
+      · simp only [hz, if_false, hex, if_true]
+
+/-- the former counter-example (fees 20 > payment 10, no royalty due) is now refused -/
+example : royaltyPayout none 10 20 none = .error .other := rfl
+example : royaltyPayout (some ⟨11, 0⟩) 10 20 none = .error .other := rfl
+example : royaltyPayout none 20 20 none = .ok (0, []) := rfl
+
+/-- whatever is sent is exactly what is returned, and royalty plus fees always fit into the payment -/
+theorem C10_payout_conserves (info : Option RoyaltyInfo) (payment fee : Nat) (finders : Option Nat) (amt : Nat) (ms : List Msg)
+    (h : royaltyPayout info payment fee finders = .ok (amt, ms)) :
+    sumAmounts ms = amt ∧ amt + fee + finders.getD 0 ≤ payment := by
   rw [C10_payout_spec] at h
-  simp only at h
   split at h
-  · rename_i hz
-    cases h
-    exact ⟨rfl, fun hnz => absurd hz hnz⟩
-  · split at h
-    · cases h
-    · cases h
-      refine ⟨by simp [sumAmounts, Msg.amount], fun _ => by omega⟩
+  · cases h
+  · rename_i h1
+    cases info with
+    | none => simp only at h; cases h; exact ⟨rfl, by omega⟩
+    | some r =>
+      simp only at h
+      split at h
+      · cases h; exact ⟨rfl, by omega⟩
+      · split at h
+        · cases h
+        · cases h
+          exact ⟨by simp [sumAmounts, Msg.amount], by omega⟩
 
 /-- with a share ≤ 100 % (clause 1) the royalty never exceeds the payment -/
 theorem C10_floor_le (payment share : Nat) (h : share ≤ 10^18) : payment * share / 10^18 ≤ payment := by
@@ -609,10 +840,10 @@ theorem C10_floor_le (payment share : Nat) (h : share ≤ 10^18) : payment * sha
 deriving instance DecidableEq for Except
 
 def exInst : InstMsg :=
-  { senderIsContract := true, funds := 0, minter := 1000, creator := 10, descLen := 3, image := 2, link := none,
+  { kind := .base, senderIsContract := true, funds := 0, minter := 1000, creator := 10, descLen := 3, image := 2, link := none,
     explicit := none, startTrading := none, royalty := some ⟨11, 8 * 10^16⟩ }
 def exColl : Coll :=
-  { creator := 10, descLen := 3, image := 2, link := none, explicit := none, startTrading := none,
+  { kind := .base, name := .base, ver := curVer .base, creator := 10, descLen := 3, image := 2, link := none, explicit := none, startTrading := none,
     royalty := some ⟨11, 8 * 10^16⟩, frozen := false, updatedAt := 1000 }
 def updRoy (r : RoyaltyInfo) : UpdMsg :=
   { desc := none, image := none, link := .keep, explicit := none, royalty := .set r, creator := none }
@@ -633,5 +864,37 @@ example : royaltyPayout (some ⟨11, 5 * 10^16⟩) 100 95 (some 1) = .error .oth
 example : fieldsOk exColl 10 (updRoy ⟨11, 1⟩) := by
   refine ⟨rfl, rfl, ?_, by decide, by decide, by decide⟩
   intro n hn; cases hn
+
+
+/-! ## The upgrade counter-example (clause 3 across an upgrade from a version below 3.1.0) -/
+
+/-- an sg721-updatable instance standing for a collection created by 3.0.0 code (the harness fabricates it with `setver`) -/
+def exOld : Coll := { exColl with kind := .updatable, name := .updatable, ver := (3, 0, 0) }
+def exT : Nat := 1000 + 86400 * 10^9
+def exUpgradeOps : List Op :=
+  [⟨exT, 10, .update (updRoy ⟨11, 7 * 10^16⟩)⟩,      -- accepted: 24 h after the anchor
+   ⟨exT + 1, 9, .migrate .updatable true⟩,           -- upgrade 1 ns later: `v3_1_0::upgrade` sets the anchor to now − 24 h
+   ⟨exT + 1, 10, .update (updRoy ⟨11, 6 * 10^16⟩)⟩]  -- accepted again, 1 ns after the previous change
+
+/-- **The literal clause "any royalty change is accepted at most once per 24 hours" fails across an upgrade of an instance
+whose stored version is below 3.1.0**: a real history (no `setver` in it) with two accepted, observable royalty changes
+1 ns apart. Replayed on the real sg721-updatable: `corpus/C10/upgrade-rewind.json`. Instances created by the current
+code are not affected (`C10_no_rewind_reachable`, `C10_cadence`). -/
+theorem C10_cadence_upgrade_counterexample :
+    NoSetver exUpgradeOps ∧ rewinding (step' exOld exUpgradeOps[0]) exUpgradeOps[1] = true ∧
+    acceptedTimes exOld exUpgradeOps = [exT, exT + 1] ∧ changeTimes exOld exUpgradeOps = [exT, exT + 1] ∧
+    (run exOld exUpgradeOps).royalty = some ⟨11, 6 * 10^16⟩ := by
+  refine ⟨?_, by decide, by decide, by decide, by decide⟩
+  intro op hop
+  simp [exUpgradeOps] at hop
+  rcases hop with rfl | rfl | rfl <;> rfl
+
+/-- the same history on an instance created by the current code: the second change is refused -/
+example : acceptedTimes { exOld with ver := curVer .updatable } exUpgradeOps = [exT] := by decide
+/-- version boundary of the rewind: 3.0.99 rewinds, 3.1.0 does not -/
+example : rewinds { exOld with ver := (3, 0, 99) } .updatable = true ∧ rewinds { exOld with ver := (3, 1, 0) } .updatable = false := by decide
+/-- sg721-base → sg721-updatable at the current version is a migration that does not move the anchor -/
+example : (step' exColl ⟨exT, 9, .migrate .updatable true⟩).updatedAt = exColl.updatedAt ∧
+    (step' exColl ⟨exT, 9, .migrate .updatable true⟩).kind = .updatable := by decide
 
 end LP
